@@ -91,7 +91,11 @@ class ExprMixin:
                 ents.append(("each", loops, guards, pair) if (loops or guards) else pair)
             return ("dict", tuple(ents))
         if isinstance(v, Closure):
-            return ("closure", v.qual or getattr(v.fn, "name", "lambda"), getattr(v.fn, "lineno", 0))
+            t_ = ("closure", v.qual or getattr(v.fn, "name", "lambda"), getattr(v.fn, "lineno", 0), getattr(v.fn, "col_offset", 0))
+            if not hasattr(self, "_closure_of_term"):
+                self._closure_of_term = {}
+            self._closure_of_term[t_] = v        # a function stored in a table and read back is still that function
+            return t_
         if isinstance(v, BoundMethod):
             return ("boundmethod", self.to_term(v.recv), v.fn.name)
         if isinstance(v, ClassRef):
@@ -1012,7 +1016,15 @@ class ExprMixin:
                 out.items = [Item(i.value) for i in base.items[slice(lo[1], hi[1], st[1])]]
                 return out
             return ("idx", self.ref_term(base), ("slice", lo, hi, st))
-        idx = self.to_term(self.eval(node.slice))
+        iv = self.eval(node.slice)
+        idx = self.to_term(iv)
+        if is_app(idx) and idx[1] in ("==", "!=", "<", "<=", ">", ">=", "not", "is", "is not", "in") and not isinstance(base, PyDict):
+            # x[cond]: a comparison used as a position is 1 when it holds and 0 when it does not
+            t = self.truth(iv)
+            if t is True:
+                idx = K(1)
+            elif t is False:
+                idx = K(0)
         return self.subscript(base, idx)
 
     def subscript(self, base, idx):
